@@ -218,6 +218,7 @@ func closeTarget14(c *ast.CallExpr) string {
 //   - `if err == io.EOF { return … }` followed by closes (everything after counts for the error case),
 //   - a call of, or `return` of a call of, a function of the same package: its body is read the same way with its
 //     parameters bound to the arguments (two levels).
+//
 // A close in a branch taken only on io.EOF has no place in the two lists; it is reported through bad.
 func armCloses14(stmts []ast.Stmt, b bind14, idx map[string]*ast.FuncDecl, encl *ast.FuncDecl, depth int, bad *[]string) (always, onErr []string) {
 	errOnly := false
